@@ -236,7 +236,7 @@ def c04(tier):
             rel_job(run, "avg-affine-n%d-a%d_%d" % (n, a[0], a[1]), "C04", sc2["cfgs"], alpha, 1, min(L, 6), a, b, "affine")
     return run.finish(RULE_DEF + "; for the interval/constant/monotone clauses: states in which the average reports a value")
 
-def rel_job(run, name, prop, cf, alphabet, unit, L, a, b, mode, bitexact=False, cfgs2=None, invonly=False, pow2=0):
+def rel_job(run, name, prop, cf, alphabet, unit, L, a, b, mode, bitexact=False, cfgs2=None, invonly=False, pow2=0, rescaled=False):
     """two real runs per history: x and a*x+b (a = [num,den], b = [num,den]); decided by MC_Rel"""
     an, ad = a; bn, bd = b
     unit2 = ad * bd * unit
@@ -252,6 +252,8 @@ def rel_job(run, name, prop, cf, alphabet, unit, L, a, b, mode, bitexact=False, 
     sc2 = {"cfgs": cfgs2 or cf, "alphabet": alpha2, "unit": unit2, "maxlen": L}
     if pow2:
         sc2["pow2"] = pow2          # second run in units of 2^pow2 (exact); only invariance is asserted
+    if rescaled:
+        sc["rescaled"] = True; sc2["outpow2"] = -pow2   # ... and its answers converted back to the original unit (exact)
     run.submit(p1_job, name, "MC_Rel", sc, scope2=sc2,
                nontrivial_keys=("rel.inv", "rel.scale", "rel.affine", "rel.neg", "rel.rsi"))
 
@@ -279,6 +281,8 @@ def c12(tier):
             # units far from 1: an absolute threshold anywhere in a view is not scale invariant (bit-exact: powers of two)
             rel_job(run, "scale-tiny-n%d" % n, "C12", cf, A, 1, L, [1, 1], [0, 1], "scale", bitexact=True, invonly=True, pow2=-120)
             rel_job(run, "scale-huge-n%d" % n, "C12", cf, A, 1, L, [1, 1], [0, 1], "scale", bitexact=True, invonly=True, pow2=100)
+            eq = [c for c in cf if c["k"] in ("Min", "Max", "Sma", "Ema", "Alma", "Cumulative", "WelfordOnline", "SuperSmoother", "CyberCycle", "RoofingFilter", "LaguerreFilter")]
+            rel_job(run, "equiv-tiny-n%d" % n, "C12", eq, A, 1, L, [1, 1], [0, 1], "scale", bitexact=True, pow2=-120, rescaled=True)
             rel_job(run, "offset-big-n%d" % n, "C12", cf, A, 1, L, [1, 1], [1000000, 1], "affine")
         rel_job(run, "affine-n%d" % n, "C12", cf, A, 1, L, [3, 1], [5, 2], "affine")
         rel_job(run, "neg-n%d" % n, "C12", cf, A, 1, L, [-1, 1], [0, 1], "neg", cfgs2=swap_minmax(cf))
@@ -335,6 +339,11 @@ def c10(tier):
         run.submit(pair_job, "add-n%d" % n, {"cfgs": cf, "alphabet": B, "pair_alphabet": [-1, 0, 1], "combos": combos, "unit": 1, "maxlen": L})
         for a in ([-2, 1], [3, 1], [0, 1], [1, 3], [1000, 1], [1, 1000]):
             rel_job(run, "homog-n%d-a%d_%d" % (n, a[0], a[1]), "C10", cf, [-2, 0, 1, 3], 1, min(L + 1, 6), a, [0, 1], "scale")
+    # the same stream in units of 2^-120 and 2^100 (answers converted back exactly): a linear view must answer bit-identically
+    for n in (1, 2, 3):
+        cf = c10_cfgs(n) + (LAG if n == 1 else [])
+        for k in (-120, 100):
+            rel_job(run, "units-n%d-p%d" % (n, k), "C10", cf, [-2, 0, 1, 3], 1, 6, [1, 1], [0, 1], "scale", bitexact=True, invonly=False, pow2=k, rescaled=True)
     return run.finish("pairs of input sequences (x, y) over {-1,0,1} with a*x+b*y for four (a,b), and every sequence with its multiple a*x "
                       "(a = -2, 3, 0, 1/3), each run through the real view; non-trivial = states where all runs report a value")
 
